@@ -152,8 +152,8 @@ func (s *Server) Session(strm signaling.SRPCSignaling_SessionStream) error {
 	}
 
 	sess.seqno++
-	sess.broadcast()
 	waitCh := sess.getWaitCh()
+	sess.broadcast()
 
 	s.mtx.Unlock()
 
